@@ -96,11 +96,48 @@ theorem C13_torrent_roundtrip (isUrl : Str → Bool) (intO : Str → IntResult) 
         simp [hv, hname', hsize', htr, htrn, hws, hwsn]
       · simp [torrentOfMagnet, C14.C14_torrent_hash ih hv, hcan, bind, Except.bind, pure, Except.pure]
 
+/-- The URL clauses of `WF` / `TorrentOk` are no restriction: whatever the URL setters of a magnet
+    accept (C14's model of `utils.URL` and `MonitoredList.replace`) is stored valid, non-empty, free of
+    spaces and without duplicates — for every validity predicate that rejects the empty string, as
+    `utils.is_url` does.  (Before the repair of D13e a constructed magnet could hold the invalid
+    `+http://…`; such objects were excluded by `WF`.) -/
+theorem C13_stored_urls_ok (isUrl : Str → Bool) (hne : isUrl [] = false) (st vs : List Str)
+    (st1 : Option Str) (v : Str) :
+    ((setUrls isUrl st vs).1 = none →
+      (setUrls isUrl st vs).2.all (urlOk isUrl) = true ∧ (setUrls isUrl st vs).2.Nodup) ∧
+    ((setUrl isUrl st1 (some v)).1 = none →
+      ∃ u, (setUrl isUrl st1 (some v)).2 = some u ∧ urlOk isUrl u = true) := by
+  have hok : ∀ u, isUrl u = true → ' ' ∉ u → urlOk isUrl u = true := by
+    intro u h1 h2
+    have : u ≠ [] := by intro e; rw [e, hne] at h1; cases h1
+    simp [urlOk, h1, this, h2]
+  obtain ⟨_, _, h3, h4, _⟩ := C14.C14_urls isUrl st vs st1 v
+  constructor
+  · intro h
+    obtain ⟨e, hall⟩ := h3 h
+    refine ⟨List.all_eq_true.mpr fun u hu => hok u (hall u hu).1 (hall u hu).2, ?_⟩
+    rw [e]; exact (C14.C14_keepFirst _).1
+  · intro h
+    rw [h4] at h ⊢
+    by_cases ha : urlAccepts isUrl v = true
+    · simp only [ha, if_true]
+      refine ⟨_, rfl, hok _ ?_ ?_⟩
+      · simp only [urlAccepts, Bool.and_eq_true] at ha; exact ha.2
+      · intro hm
+        obtain ⟨c, _, hc⟩ := List.mem_map.mp hm
+        by_cases hcs : c = ' ' <;> simp [hcs] at hc
+    · simp [ha] at h
+
 /-! ### non-vacuity -/
 
 example : WF (fun _ => true)
     { infohash := witnessHash, dn := some "a&b=c d".toList, xl := some 12,
       tr := ["http://a/b+c".toList, "udp://t".toList], kt := ["k+1".toList] } = true := by decide
+
+/-- hypotheses of `C13_stored_urls_ok`: a predicate that rejects '' and accepts a URL with a space -/
+example : (fun s : Str => s.take 4 = "http".toList) [] = false ∧
+    (setUrls (fun s => s.take 4 = "http".toList) [] ["http://a/b c".toList, "http://a/b+c".toList]).1 = none := by
+  decide
 
 example : TorrentOk (fun _ => true)
     { infohash := witnessHash, name := some "n m".toList, size := some 5,
